@@ -2326,3 +2326,139 @@ def cases(tier, seed):
     for kind in ("is_square/1d", "is_square/3d", "is_pseudo_unitary/negative-p", "is_pseudo_unitary/negative-q", "is_pseudo_hermitian/non-hermitian-signature", "is_pseudo_hermitian/singular-signature", "is_stochastic/bad-type", "is_nonnegative/bad-type", "is_totally_positive/empty", "spark/1d", "spark/list", "is_mutually_orthogonal/one-vector", "is_mutually_orthogonal/empty", "is_unextendible_product_basis/dims-mismatch", "is_unextendible_product_basis/non-product", "vectors_to_gram_matrix/different-lengths", "vectors_from_gram_matrix/non-square"):
         add("errors.documented", dict(kind=kind), "errors/" + kind)
     return out
+
+
+# =============================================================================================
+# replay clause and cases of the E1-term matrix-predicate contracts (main agent)
+# =============================================================================================
+from props.C16_prove import EXTRA_CLAUSES as _EXTRA  # noqa: E402
+from props.C16_prove import extra_cases as _extra_cases  # noqa: E402
+
+CLAUSES.update(_EXTRA)
+_cases_bounded = cases
+
+
+def cases(tier, seed):  # noqa: F811
+    return _cases_bounded(tier, seed) + _extra_cases(tier, seed)
+
+
+# =============================================================================================
+# frame coverage shared by all properties (E2 obligations for every public function of the anchor files + run-time frame cases)
+# =============================================================================================
+from props import frame_all as _fa  # noqa: E402
+from props.frame_common import frame_generic as _fg, frame_object as _fo  # noqa: E402
+
+CLAUSES.setdefault("frame.generic", _fg)
+CLAUSES.setdefault("frame.object", _fo)
+_cases_before_frames = cases
+_prove_before_frames = globals().get("prove")
+
+
+def cases(tier, seed):  # noqa: F811
+    return _cases_before_frames(tier, seed) + _fa.frame_cases(ID, seed)
+
+
+def prove(tier, seed):  # noqa: F811
+    from vt.pyvc.termproofs import merge
+
+    b = _fa.prove_frames(ID, lambda s: _fa.frame_cases(ID, s))(tier, seed)
+    if _prove_before_frames is None:
+        return b
+    return merge(_prove_before_frames(tier, seed), b)
+
+
+# ---------------------------------------------------------------------------------------------
+# additional cases (main agent): three or more bases with a non-adjacent biased pair; majorisation of spectra of different length
+def _mub_set(d):
+    import numpy as np
+
+    if d == 2:
+        z = [np.array([1.0, 0.0]), np.array([0.0, 1.0])]
+        x = [np.array([1.0, 1.0]) / np.sqrt(2), np.array([1.0, -1.0]) / np.sqrt(2)]
+        y = [np.array([1.0, 1j]) / np.sqrt(2), np.array([1.0, -1j]) / np.sqrt(2)]
+        return [z, x, y]
+    w = np.exp(2j * np.pi / d)
+    bases = [[np.eye(d)[:, m].astype(complex) for m in range(d)]]
+    for k in range(d):  # odd prime d: vectors (1/sqrt d) w^(k j^2 + m j)
+        bases.append([np.array([w ** (k * j * j + m * j) for j in range(d)]) / np.sqrt(d) for m in range(d)])
+    return bases
+
+
+def mub_nonadjacent(p):
+    """mutual unbiasedness is a property of every PAIR of bases, whatever the order in which the bases are listed"""
+    import itertools
+
+    import numpy as np
+
+    from toqito.state_props import is_mutually_unbiased_basis
+    from vt.contract import Violation
+
+    d = p["d"]
+    B = _mub_set(d)
+    for order in itertools.permutations(range(len(B)), 3):
+        vs = [v for i in order for v in B[i]]
+        if not is_mutually_unbiased_basis(vs):
+            raise Violation("three mutually unbiased bases of dimension %d listed in order %s are rejected" % (d, order))
+    rng = np.random.default_rng(p.get("seed", 0))
+    perm = rng.permutation(d)
+    for a, b in ((0, 1), (1, 2), (0, 2)):
+        # bases a, b, a' : a' is basis a with its vectors permuted and re-phased -- orthonormal, unbiased with b, but NOT with a
+        a2 = [np.exp(1j * rng.uniform(0, 2 * np.pi)) * B[a][int(i)] for i in perm]
+        for arrangement in ([B[a], B[b], a2], [a2, B[b], B[a]], [B[a], a2, B[b]], [B[b], B[a], a2]):
+            vs = [v for blk in arrangement for v in blk]
+            if is_mutually_unbiased_basis(vs):
+                raise Violation("a list of three bases of dimension %d in which two bases coincide up to phases was accepted as mutually unbiased (biased pair non-adjacent or adjacent)" % d)
+
+
+def majorizes_padded(p):
+    """majorisation of vectors / spectra of different length: the shorter one is padded with zeros (singular-value definition)"""
+    import numpy as np
+
+    from toqito.matrix_props import majorizes
+    from vt.contract import Violation
+
+    rng = np.random.default_rng(p.get("seed", 0))
+
+    def ref(a, b):
+        n = max(len(a), len(b))
+        x = np.sort(np.concatenate([np.asarray(a, float), np.zeros(n - len(a))]))[::-1]
+        y = np.sort(np.concatenate([np.asarray(b, float), np.zeros(n - len(b))]))[::-1]
+        cx, cy = np.cumsum(x), np.cumsum(y)
+        margin = np.min(cx - cy)
+        return margin, bool(np.all(cx >= cy - 1e-12))
+
+    fixed = [([1.0, 1.0], [1.0, 0.5, 0.5, 0.5]), ([1.0, 0.5, 0.5, 0.5], [1.0, 1.0]), ([3.0], [1.0, 1.0, 1.0]), ([1.0, 1.0, 1.0], [3.0]), ([2.0, 1.0], [1.0, 1.0, 1.0, 0.5])]
+    for a, b in fixed + [(list(rng.random(rng.integers(1, 4)) + 0.1), list(rng.random(rng.integers(3, 7)) + 0.1)) for _ in range(20)]:
+        margin, exp = ref(a, b)
+        if abs(margin) < 1e-6:
+            continue
+        got = bool(majorizes(np.array(a), np.array(b)))
+        if got != exp:
+            raise Violation("majorizes(%s, %s) = %s; zero-padded partial sums give %s" % (np.round(a, 3).tolist(), np.round(b, 3).tolist(), got, exp))
+    # matrices of different size: compared through their singular values
+    for _ in range(6):
+        A = rng.standard_normal((2, 2))
+        Bm = rng.standard_normal((4, 4)) * rng.uniform(0.2, 1.5)
+        sa, sb = np.linalg.svd(A, compute_uv=False), np.linalg.svd(Bm, compute_uv=False)
+        margin, exp = ref(sa, sb)
+        if abs(margin) < 1e-6:
+            continue
+        got = bool(majorizes(A, Bm))
+        if got != exp:
+            raise Violation("majorizes(2x2 matrix, 4x4 matrix) = %s; singular values %s vs %s give %s" % (got, np.round(sa, 3).tolist(), np.round(sb, 3).tolist(), exp))
+
+
+mub_nonadjacent.function = "is_mutually_unbiased_basis"
+majorizes_padded.function = "majorizes"
+CLAUSES["mub.nonadjacent"] = mub_nonadjacent
+CLAUSES["majorizes.padded"] = majorizes_padded
+_cases_before_extra2 = cases
+
+
+def cases(tier, seed):  # noqa: F811
+    out = _cases_before_extra2(tier, seed)
+    for d in (2, 3, 5):
+        out.append(dict(clause="mub.nonadjacent", params=dict(d=d, seed=seed), input_class="is_mutually_unbiased_basis/three-bases/d=%d" % d, nontrivial=True))
+    for s in range(3):
+        out.append(dict(clause="majorizes.padded", params=dict(seed=seed + s), input_class="majorizes/different-lengths", nontrivial=True))
+    return out
